@@ -262,11 +262,20 @@ def _builder_record(arg):
     import scipy.sparse as sp
     from enspara.msm import builders
     Cint = np.array(Ci, dtype=np.int64)
+    # element type of the caller's matrix: the estimate is invariant under a common factor on the counts, so for the
+    # narrow integer types the counts are multiplied by a factor that keeps every count inside the type while sums
+    # of two counts (2 C_ii, C_ij + C_ji, row sums) are not; the run is judged against the same integer matrix
+    rot = int(Cint.sum()) + len(Ci) + len(cont) + (1 if flag else 0)
+    dt, fac = (("int64", 1), ("int16", 9000), ("float64", 1), ("int32", 600000000), ("uint8", 60), ("float32", 1))[rot % 6]
+    if int(Cint.max()) > 3 or prior is not None:
+        dt, fac = ("int64", 1) if dt not in ("float64", "float32") else (dt, 1)
     if cont == "coodup":        # one entry of value 1 per count (what assigns_to_counts returns)
         from props.c04 import make
         M = make("coodup", Cint)
+        dt, fac = "int64", 1
     else:
-        M = Cint.copy() if cont == "ndarray" else getattr(sp, cont + "_matrix")(Cint)
+        Cs = (Cint * fac).astype(dt)
+        M = Cs.copy() if cont == "ndarray" else getattr(sp, cont + "_matrix")(Cs)
     before = (M.toarray() if sp.issparse(M) else M).copy()
     btype = type(M)
     ev = [{"ev": "start", "impl": "builder:" + cont}]
@@ -290,7 +299,7 @@ def _builder_record(arg):
                                                                 [t.__name__ for t in allowed])))
     if type(M) is not btype or not np.array_equal(dn(M), before):
         side.append(("mle/caller-modified", dn(M).tolist()))
-    if not np.allclose(dn(Cout), Weff, rtol=1e-12):
+    if not np.allclose(np.asarray(dn(Cout), dtype=float), Weff.astype(float) * fac, rtol=1e-12):
         side.append(("mle/counts", dn(Cout).tolist()))
     if flag:
         pv = pi
@@ -319,7 +328,7 @@ def _builder_record(arg):
         rs = X.sum(axis=1)
         comp.append({"X": X.tolist(), "ll4": _ll(Weff.astype(float), X / rs[:, None])})
     return {"n": len(Ci), "C": Weff.tolist(), "cs": 1, "cap": 0, "events": ev, "comp": comp, "side": side,
-            "cont": cont, "prior": prior, "flag": flag}
+            "cont": cont, "prior": prior, "flag": flag, "dtype": dt, "factor": fac}
 
 
 def mle_container_part(ctx, side=True):
